@@ -229,6 +229,7 @@ pub struct MpmcWorld<A: MpmcApi> {
     n_rx: usize,
     used: [bool; MAX_IDS],
     expected_lib_drops: Vec<u32>,
+    last_receiver_gone_in_this_op: bool,
     // generation
     k: usize,
     realism: u64,
@@ -361,6 +362,9 @@ impl<A: MpmcApi> MpmcWorld<A> {
         let mut want = std::mem::take(&mut self.expected_lib_drops);
         want.sort_unstable();
         if dropped != want {
+            if self.last_receiver_gone_in_this_op {
+                env.fail("C11", "buffer-not-discarded", format!("{}: the last receiver is gone, buffered values {:?} must be discarded immediately, but the library dropped {:?}", opname, want, dropped), true);
+            }
             env.fail("C08", "unexpected-drop", format!("{}: values dropped inside the library: {:?}, expected by the model: {:?}", opname, dropped, want), true);
             return;
         }
@@ -577,6 +581,7 @@ impl<A: MpmcApi> World for MpmcWorld<A> {
             n_rx: 1,
             used: [false; MAX_IDS],
             expected_lib_drops: Vec::new(),
+            last_receiver_gone_in_this_op: false,
             k: cfg_get(cfg, "k", 3) as usize,
             realism: cfg_get(cfg, "realism", 50) as u64,
             weights,
@@ -709,6 +714,7 @@ impl<A: MpmcApi> World for MpmcWorld<A> {
         let id = op.a as usize % MAX_IDS;
         let hidx = op.b as usize % MAX_HANDLES;
         let owners_before = self.owners(env);
+        let n_rx_before = self.n_rx;
         match op.k {
             OP_NEW_SEND => {
                 let tag = (op.c as usize % val::MAX_TAGS) as u32;
@@ -1128,6 +1134,7 @@ impl<A: MpmcApi> World for MpmcWorld<A> {
             self.expected_lib_drops.extend(self.buf.drain(..));
             self.prim_alive = false;
         }
+        self.last_receiver_gone_in_this_op = A::SHARED && n_rx_before > 0 && self.n_rx == 0;
         self.check(env, op, owners_before);
     }
 
